@@ -7,6 +7,10 @@ HOOK_COMMITS = ["2c68a33", "da4e8eb"]
 
 # id -> (engine, level, technique, level text, level note)
 CHECKS = {
+ "C09": ("bubble", "exploration",
+         "handshake reference predicate with the harness's own HMAC/PBKDF2/ed25519 verification; replayed transcripts; inertness and identity-field monitors",
+         "runtime monitor: WELCOME is accepted only when the reference predicate holds for this very handshake (first message HELLO, realm existing or template-creatable, a client role, first configured offered method, response valid for the CHALLENGE just issued); refused peers must be inert (no reply, no event at the observer, session count unchanged) and disconnected; identity fields in WELCOME, on_join and wamp.session.get must equal what router and authenticator assigned, never smuggled HELLO details",
+         "cryptographic unforgeability of HMAC-SHA256/ed25519 is trusted; a ticket is valid in every handshake by construction (I9); trusted in-process authid may come from HELLO (I10)"),
  "C10": ("bubble", "exploration",
          "generated decision-table authorizers evaluated by harness and router alike; denied steps: reply + no-effect oracle; allowed/rewritten steps: lock-step model of the authorizer-free router",
          "runtime monitor: the harness computes the authorizer's decision for every scripted message; denied messages must draw exactly the documented ERROR (none for unacknowledged PUBLISH) and nothing else may be observed by any session, catch-all or meta observer; allowed, rewritten and session-changing decisions are checked against the model that decides the router without an authorizer",
